@@ -149,6 +149,9 @@ func estimateIn(p *ammtypes.Pool, in, out string, amt sdkmath.Int) sdkmath.Int {
 
 // limitAround: very loose / near the estimate (both sides) / impossible
 func limitAround(g *G, est sdkmath.Int, isMax bool) sdkmath.Int {
+	if g.Int("c04/zerolimit", 0, 11) == 0 {
+		return sdkmath.ZeroInt() // "at most nothing" / "at least nothing": a valid message
+	}
 	switch g.Int("c04/limit", 0, 5) {
 	case 0, 1:
 		if isMax {
